@@ -277,11 +277,17 @@ def check(prop, tier, obligations, level="model_checking", seed=0, extra_assumpt
                         vals = rp.build_values(r.get("nondets") or [], q.get("model") or {})
                         has_picks = any(nd["Kind"] in ("pick", "rand") for nd in (r.get("nondets") or []))
                         rdir = os.path.join(VERIF, "replays", prop, "%s-%s-%d" % (ob["name"], hashlib.sha1(q["label"].encode()).hexdigest()[:8], nrep))
-                        res = rp.replay(ob["pkg"], ob["func"], r["consts"], vals, repeat=(ob.get("replay_repeat", 400) if has_picks else 1),
-                                        timeout=ob.get("replay_timeout", 120), keep_dir=rdir)
+                        shared = q["label"].startswith("no-write-to-package-level-state")
+                        if shared:
+                            res = rp.replay_race(ob["pkg"], r["consts"], vals, keep_dir=rdir)
+                        else:
+                            res = rp.replay(ob["pkg"], ob["func"], r["consts"], vals, repeat=(ob.get("replay_repeat", 400) if has_picks else 1),
+                                            timeout=ob.get("replay_timeout", 120), keep_dir=rdir)
                         tot["replays"] += 1
                         reproduced = False
-                        if q["kind"] in ("assert", "known"):
+                        if shared:
+                            reproduced = res["outcome"] == "race"
+                        elif q["kind"] in ("assert", "known"):
                             reproduced = q["label"] in res["failed"] or q["label"] in res["known"]
                         elif q["kind"] == "panic":
                             reproduced = res["outcome"] in ("panic", "crash")
